@@ -202,7 +202,7 @@ inductive Err where
   | notBound (name : String)
   | typeError (expected : String)
   | arity (expected got : Nat)
-  | divZero | modZero | negPow | powTooLarge | powOverflow
+  | divZero | divOverflow | modZero | negPow | powTooLarge | powOverflow
   | noMatch | badPattern (name : String) | notEnum
   | tupleSize (expected got : Nat)
   | invalidSyntax
@@ -214,7 +214,7 @@ def Err.toString : Err → String
   | .notBound n => s!"not-bound {n}"
   | .typeError e => s!"type-error {e}"
   | .arity e g => s!"arity {e} {g}"
-  | .divZero => "div-zero" | .modZero => "mod-zero" | .negPow => "neg-pow"
+  | .divZero => "div-zero" | .divOverflow => "div-overflow" | .modZero => "mod-zero" | .negPow => "neg-pow"
   | .powTooLarge => "pow-too-large" | .powOverflow => "pow-overflow"
   | .noMatch => "no-match" | .badPattern n => s!"bad-pattern {n}" | .notEnum => "not-enum"
   | .tupleSize e g => s!"tuple-size {e} {g}"
@@ -286,10 +286,10 @@ def setExisting : List Block → String → Value → Option (List Block)
     if b.any (fun kv => kv.1 == name) then some (blockSet b name v :: rest)
     else (setExisting rest name v).map (b :: ·)
 
-def getVar (s : State) (f : Frame) (name : String) : Option Value :=
+def getVar (p : Program) (f : Frame) (name : String) : Option Value :=
   match lookupBlocks f.blocks name with
   | some v => some v
-  | none => nsLookup s.prog name
+  | none => nsLookup p name
 
 -- ---------------------------------------------------------------- integer operators
 
@@ -305,14 +305,14 @@ inductive OpResult where
   | err (e : Err)
   | panic (site : String)
 
-/-- `eval_int_binop` on two Int operands (pinned tree: `MIN / -1` panics). -/
+/-- `eval_int_binop` on two Int operands (`MIN / -1` raises, `checked_div`). -/
 def intBinop (op : BinOp) (a b : Int64) : OpResult :=
   match op with
   | .add => .ok (.int (a + b))
   | .sub => .ok (.int (a - b))
   | .mul => .ok (.int (a * b))
   | .div => if b == 0 then .err .divZero
-            else if a == i64Min && b == -1 then .panic "attempt to divide with overflow"
+            else if a == i64Min && b == -1 then .err .divOverflow
             else .ok (.int (a / b))
   | .mod => if b == 0 then .err .modZero
             else if a == i64Min && b == -1 then .err .modZero
@@ -370,28 +370,65 @@ inductive Disp where
   | panic (site : String)
   | unsupported (what : String)
 
-/-- `eval_break`: pop entries until the innermost loop. -/
+/-- `pending_expr_owns_block`: `if` / `match` (and `try`, outside the fragment) push
+their continuation in state E just before entering a block; that continuation
+pops the block. -/
+def ownsBlock (st : St) (e : Expr) : Bool :=
+  st == St.E && (match e with | .ifE .. => true | .matchE .. => true | _ => false)
+
+/-- Pop one block, failing like `Bindings::pop_block`'s assertion. -/
+def popBlocks1 : List Block → Option (List Block)
+  | _ :: b :: bs => some (b :: bs)
+  | _ => none
+
+/-- `eval_break`: pop entries until the innermost RUNNING loop, popping the binding block
+of every block-owning entry discarded and of a running `while` body. A loop entry in state
+N is a later statement of a block being left and is skipped; a `for` in state PW is still
+evaluating its iterated value: its index value is dropped and it is skipped. -/
 def evalBreakLoop : List (St × Expr) → List Value → List Block →
     Option (List (St × Expr) × List Value × List Block)
   | [], vals, blocks => some ([], vals, blocks)
   | (st, e) :: rest, vals, blocks =>
     match e with
-    | .whileE .. => some ((St.E, e) :: rest, vals, blocks)
+    | .whileE .. =>
+      if st == St.N then evalBreakLoop rest vals blocks
+      else if st == St.PD then (popBlocks1 blocks).map fun bs => ((St.E, e) :: rest, vals, bs)
+      else some ((St.E, e) :: rest, vals, blocks)
     | .forE .. =>
-      match vals with
-      | _ :: _ :: vals' => some ((St.E, e) :: rest, vals', blocks)
-      | _ => none   -- "Value used by `for` should be present"
+      if st == St.N then evalBreakLoop rest vals blocks
+      else if st == St.PW then
+        match vals with
+        | _ :: vals' => evalBreakLoop rest vals' blocks
+        | [] => none   -- "Index used by `for` should be present"
+      else
+        match vals with
+        | _ :: _ :: vals' => some ((St.E, e) :: rest, vals', blocks)
+        | _ => none   -- "Value used by `for` should be present"
     | _ =>
-      if st == St.PD then
-        match blocks with
-        | _ :: b :: bs => evalBreakLoop rest vals (b :: bs)
-        | _ => none
+      if ownsBlock st e then
+        match popBlocks1 blocks with
+        | some bs => evalBreakLoop rest vals bs
+        | none => none
       else evalBreakLoop rest vals blocks
 
-/-- `eval_continue`: pop entries until a loop entry, which is pushed back unchanged. -/
-def evalContinueLoop : List (St × Expr) → List (St × Expr)
-  | [] => []
-  | (st, e) :: rest => if e.isLoop then (st, e) :: rest else evalContinueLoop rest
+/-- `eval_continue`: pop entries until a running loop entry, which is pushed back
+unchanged; block-owning entries discarded on the way pop their block; loops that have
+not started are skipped as in `eval_break`. -/
+def evalContinueLoop : List (St × Expr) → List Value → List Block →
+    Option (List (St × Expr) × List Value × List Block)
+  | [], vals, blocks => some ([], vals, blocks)
+  | (st, e) :: rest, vals, blocks =>
+    if e.isLoop && st == St.N then evalContinueLoop rest vals blocks
+    else if (match e with | .forE .. => true | _ => false) && st == St.PW then
+      match vals with
+      | _ :: vals' => evalContinueLoop rest vals' blocks
+      | [] => none
+    else if e.isLoop then some ((st, e) :: rest, vals, blocks)
+    else if ownsBlock st e then
+      match popBlocks1 blocks with
+      | some bs => evalContinueLoop rest vals bs
+      | none => none
+    else evalContinueLoop rest vals blocks
 
 def popN : Nat → List Value → Option (List Value × List Value)
   | 0, vals => some ([], vals)
@@ -409,7 +446,7 @@ def bindDest (dest : Dest) (v : Value) : Except Err Block :=
     | _ => .error (.typeError "Tuple")
 
 /-- `eval_match_cases` after the scrutinee was popped. -/
-def matchCases (s : State) (f : Frame) (used : Bool) (ty : String) (idx : Nat)
+def matchCases (s : Program) (f : Frame) (used : Bool) (ty : String) (idx : Nat)
     (payload : Option Value) : List Case → Except Err Frame
   | [] => .error .noMatch
   | .mk variant dest body :: rest =>
@@ -440,7 +477,7 @@ def matchCases (s : State) (f : Frame) (used : Bool) (ty : String) (idx : Nat)
         else matchCases s f used ty idx payload rest
 
 /-- A call whose receiver and arguments are on the value stack (`eval_call`). -/
-def evalCall (s : State) (f : Frame) (used : Bool) (nargs : Nat) : Disp :=
+def evalCall (s : Program) (f : Frame) (used : Bool) (nargs : Nat) : Disp :=
   match popN nargs f.values with
   | none => .panic "Popped an empty value for stack for call arguments"
   | some (args, vals) =>
@@ -460,7 +497,7 @@ def evalCall (s : State) (f : Frame) (used : Bool) (nargs : Nat) : Disp :=
           .newFrame f { exprs := body.map (fun x => (St.N, x)), values := [vUnit],
                         blocks := pblock :: env, nextBlock := [], callerUses := used, kind := .closure }
       | .fn name =>
-        match s.prog.funs.find? (fun d => d.name == name) with
+        match s.funs.find? (fun d => d.name == name) with
         | none => .panic "function value without definition"
         | some d =>
           if d.params.length != args.length then .err f .E recvFirst (.arity d.params.length args.length)
@@ -476,7 +513,7 @@ def evalCall (s : State) (f : Frame) (used : Bool) (nargs : Nat) : Disp :=
           | "print", [.str t] => .okOut (f.pushVIf used vUnit) t
           | "println", _ => .err f .E recvLast (.typeError "String")
           | "print", _ => .err f .E recvLast (.typeError "String")
-          | "string_repr", [v] => .ok (f.pushVIf used (.str (display s.prog v)))
+          | "string_repr", [v] => .ok (f.pushVIf used (.str (display s v)))
           | _, _ => .unsupported ("builtin " ++ name)
       | .enumC ty idx =>
         if args.length != 1 then .err f .E recvFirst (.arity 1 args.length)
@@ -487,7 +524,7 @@ def evalCall (s : State) (f : Frame) (used : Bool) (nargs : Nat) : Disp :=
 
 /-- `eval_expr`: dispatch on the node and its state. `f` is the current frame
 after the entry `(st, e)` was popped. -/
-def dispatch (s : State) (f : Frame) (st : St) (e : Expr) : Disp :=
+def dispatch (s : Program) (f : Frame) (st : St) (e : Expr) : Disp :=
   let used := e.used
   match e with
   | .int _ _ v => .ok (f.pushVIf used (.int v))
@@ -560,9 +597,8 @@ def dispatch (s : State) (f : Frame) (st : St) (e : Expr) : Disp :=
           let f := { f with values := vals }
           match rv with
           | .int d =>
-            let r := if isAdd then cur.toInt + d.toInt else cur.toInt - d.toInt
-            if r < -(2^63) ∨ r ≥ 2^63 then .panic "attempt to add/subtract with overflow"
-            else match setExisting f.blocks name (.int (Int64.ofInt r)) with
+            let r : Int64 := if isAdd then cur + d else cur - d   -- wrapping_add / wrapping_sub
+            match setExisting f.blocks name (.int r) with
               | some bs => .ok ({ f with blocks := bs }.pushVIf used vUnit)
               | none => .panic "unreachable set_existing"
           | _ => .err f .E [rv] (.typeError "Int")
@@ -686,7 +722,10 @@ def dispatch (s : State) (f : Frame) (st : St) (e : Expr) : Disp :=
     | none => .panic "eval_break: value or block stack underflow"
     | some (exprs, vals, blocks) =>
       .ok ({ f with exprs := exprs, values := vals, blocks := blocks }.pushVIf used vUnit)
-  | .cont .. => .ok { f with exprs := evalContinueLoop f.exprs }
+  | .cont .. =>
+    match evalContinueLoop f.exprs f.values f.blocks with
+    | none => .panic "eval_continue: value or block stack underflow"
+    | some (exprs, vals, blocks) => .ok { f with exprs := exprs, values := vals, blocks := blocks }
 
 def limitReached : Option Nat → Nat → Bool
   | some l, n => decide (n ≥ l)
@@ -714,7 +753,7 @@ def step (s : State) : StepResult :=
       else if limitExceeded s.stackLimit s.frames.length then
         .error (setTop s (restore f st e [])) .stackLimit
       else
-        match dispatch s f st e with
+        match dispatch s.prog f st e with
         | .ok f' => .cont (setTop s f')
         | .okOut f' o => .cont (setTop { s with out := s.out ++ o } f')
         | .newFrame f' callee => .cont { s with frames := callee :: f' :: callers }
